@@ -20,6 +20,12 @@ NA = {
 }
 
 CHECKS = {
+ "C17": dict(
+   level="exploration",
+   text="SLICE of the property: stored-byte corruption of valid generated sources (1..3 modules, LF/CRLF, comments). One byte replaced by a byte that starts no ASN.1 token, a 512-byte sector zero-filled, or truncation inside an assignment, at strict positions known from the generator's token map; small sources swept exhaustively over every strict byte, larger ones sampled, every header/assignment/END hit at its first and last byte; given as a literal and as a file whose bytes the simulated disk corrupts in flight. Oracle on every syntax error: offset within input and on a char boundary; line = 1 + line breaks before offset (also for the context start); position not before the first token of the malformed unit and not after the first corrupted byte; Display line = contextualize header line = contextualize flagged line = structured line; path reported iff the source was given by path.",
+   note="Not claimed: deletion/replacement by another valid token (a typo model; needs a generator-driven differential). Ok results and non-syntax errors are not judged. The token map only has to be right for text the generator itself produces.",
+   technique="deterministic simulation with fault injection: stored-byte corruption at token-map positions, delivered as literals and through the simulated disk seam; position/consistency oracles over the structured report and both renderings",
+   design="§4 C17"),
  "C08": dict(
    level="exploration",
    text="SLICE of the property: storage-fault images of valid sources. Each run takes a real-world corpus file (all 892 walked systematically) or a generated module set and a batch of images of it - truncation at any byte (biased to the last bytes; in the thorough tier every prefix of small generated sources), single-bit flips, 512-byte sector zero-fill/duplicate/swap, splices of two files - delivered as a literal or as a file read through the simulated disk (the seam applies truncation/flip/zero-fill to the bytes in flight), compiles with both backends and renders every error and warning with Display and contextualize. Oracle: the operation returns; no panic (hook + catch_unwind), no SIGSEGV/SIGABRT, no CPU-budget overrun, on 2 MiB and 8 MiB stacks.",
